@@ -1,11 +1,11 @@
 #!/bin/bash
-# usage: mkoverlay.sh <dir>  -- writes <dir>/overlay.json replacing "sync" / "sync/atomic" imports of /repo/pkg/batch/** by the
+# usage: mkoverlay.sh <dir> [repo]  -- writes <dir>/overlay.json replacing "sync" / "sync/atomic" imports of /repo/pkg/batch/** by the
 # explorer's shims (textual import rewrite of whatever is in the working tree; /repo itself is untouched).
 set -e
-OV="$1"; mkdir -p "$OV"
+OV="$1"; REPO="${2:-/repo}"; mkdir -p "$OV"
 first=1
 printf '{"Replace":{' > "$OV/overlay.json"
-for f in $(ls /repo/pkg/batch/*.go /repo/pkg/batch/*/*.go 2>/dev/null | grep -v _test.go); do
+for f in $(ls "$REPO"/pkg/batch/*.go "$REPO"/pkg/batch/*/*.go 2>/dev/null | grep -v _test.go); do
   if grep -qE '^\s*([a-zA-Z_]+ )?"sync(/atomic)?"' "$f"; then
     out="$OV/$(echo "$f" | tr '/' '_')"
     sed -E -e 's#^(\s*)"sync"#\1"verif/mc/shim/sync"#' -e 's#^(\s*)"sync/atomic"#\1"verif/mc/shim/atomic"#' "$f" > "$out"
